@@ -111,16 +111,21 @@ def _worker(job):
 
 def run_shard_guarded(mod, params, tier, acc):
     """Run one shard.  An exception that escapes from the code under test
-    (innermost frame inside the tree's rig package) in a place where the
+    (rig frames below the innermost harness frame) in a place where the
     harness expected success is an observation about rig, not a harness
     crash: it becomes a violation whose replay re-runs the shard."""
     try:
         mod.run_shard(params, tier, acc)
     except Exception as e:
         tb = traceback.extract_tb(sys.exc_info()[2])
-        inner = tb[-1].filename if tb else ""
-        if not os.path.abspath(inner).startswith(
-                os.path.join(REPO, "rig") + os.sep):
+        rigdir = os.path.join(REPO, "rig") + os.sep
+        files = [os.path.abspath(f.filename) for f in tb]
+        # frames below the innermost harness frame: the exception is rig's
+        # if rig code is among them (it may have been raised by something rig
+        # called - the standard library, numpy - rather than by rig itself)
+        last_verif = max([i for i, f in enumerate(files)
+                          if f.startswith(VERIF + os.sep)] or [-1])
+        if not any(f.startswith(rigdir) for f in files[last_verif + 1:]):
             raise
         acc.violation(
             dict(kind="uncaught_exception_in_rig", exc=type(e).__name__),
